@@ -616,6 +616,9 @@ def main_check(mod, tier: str, seed: int, replay: Optional[str] = None, only: Op
     # --- evidence -------------------------------------------------------------------------
     wall = time.time() - t0
     samples = sub_samples[:24]
+    if not samples:
+        # every explored case failed before one could be recorded: the failing cases are the samples
+        samples = [{"subcheck": v["sub"], "case": v["case"], "violation": v["bucket"]} for v in violations[:6]]
     ev = {
         "property_id": prop,
         "tier": tier,
@@ -641,10 +644,11 @@ def main_check(mod, tier: str, seed: int, replay: Optional[str] = None, only: Op
     }
     try:
         validate_evidence(json.loads(json.dumps(ev, default=_json_default)))
-    except HarnessError as e:
-        print(f"HARNESS-ERROR property={prop}: {e}", file=sys.stderr)
-        return 2
     except Exception as e:
+        if rc == 1:
+            # a violation was found and reported; thin evidence (e.g. nothing non-trivial passed) must not mask it
+            print(f"NOTE property={prop}: evidence of this failing run does not validate ({str(e)[:120]})", file=sys.stderr)
+            return 1
         print(f"HARNESS-ERROR property={prop}: evidence invalid: {e}", file=sys.stderr)
         return 2
     if not only:
